@@ -650,6 +650,242 @@ fn exec_builtin_signer(t: &[&str]) -> Option<Out> {
     Some(Out { line, out: "~".into(), fails, stats, nontrivial: true })
 }
 
+/// `wr KEYIDX <case args>` — the RRSIG **through the wire** (implementation only): the harness writes the RRSIG (type 46)
+/// and SIG (type 24) record octets itself from the case's fields, hickory reads them back with `Record::read`, and
+/// everything downstream uses the DECODED value: every field must come back verbatim (RFC 4034 §3.1: the fields are
+/// signed as they are on the wire — no decoder may "sanitise" an Original TTL, a Labels count, a time …),
+/// `TBS::from_input` of the decoded input must equal the reference signed data built from the wire octets, hickory's own
+/// encoding of the RRSIG must be those octets, and a signature made over the reference bytes (key KEYIDX, the case's ALG and
+/// TAG replaced by the key's) must verify through `DNSKEY::verify_rrsig` with the decoded RRSIG.
+fn exec_wire(t: &[&str]) -> Option<Out> {
+    use hickory_proto::dnssec::rdata::DNSSECRData;
+    use hickory_proto::serialize::binary::{BinDecodable, BinDecoder, BinEncodable, BinEncoder};
+    let [_, ki, args @ ..] = t else { return None };
+    let ki: usize = ki.parse().ok()?;
+    let given = Case::parse(args)?;
+    let key = sign_keys().get(ki % sign_keys().len())?;
+    let line = format!("wr {ki} {}", given.args()?);
+    let name = given.name.to_name()?;
+    let class = DNSClass::from(given.cls);
+    let records: Vec<Record> = given.recs.iter().map(|r| r.to_record()).collect::<Option<Vec<_>>>()?;
+    let mut fails: Vec<(String, String)> = vec![];
+    let mut stats = vec![];
+    let mut signed = given.clone();
+    signed.alg = u8::from(key.alg);
+    signed.tag = key.tag;
+    let signed_ref = signed.ref_signed_data();
+    let real_sig = signed_ref.as_ref().and_then(|b| key.key.sign(&TBS::from(&b[..])).ok());
+    for (what, c, sig) in [("as given", &given, vec![0xA5u8; 9]), ("signed", &signed, real_sig.clone().unwrap_or_else(|| vec![1, 2, 3]))] {
+        // the RDATA octets, RFC 4034 §3.1 (signer's name as it is, not compressed)
+        let mut rdata = vec![];
+        rdata.extend(c.tc.to_be_bytes());
+        rdata.push(c.alg);
+        rdata.push(c.labels);
+        rdata.extend(c.ottl.to_be_bytes());
+        rdata.extend(c.exp.to_be_bytes());
+        rdata.extend(c.inc.to_be_bytes());
+        rdata.extend(c.tag.to_be_bytes());
+        rdata.extend(wire(&c.signer.labels));
+        rdata.extend_from_slice(&sig);
+        if !c.signer.fqdn || !c.name.fqdn {
+            continue;
+        }
+        for rtype in [46u16, 24] {
+            let mut octets = wire(&c.name.labels);
+            octets.extend(rtype.to_be_bytes());
+            octets.extend(c.cls.to_be_bytes());
+            octets.extend(c.ottl.to_be_bytes());
+            octets.extend((rdata.len() as u16).to_be_bytes());
+            octets.extend_from_slice(&rdata);
+            let mut dec = BinDecoder::new(&octets);
+            let back = match Record::read(&mut dec) {
+                Ok(r) => r,
+                Err(e) => {
+                    // names of more than 255 octets and the like never get here (the case would not build)
+                    fails.push((format!("Record::read rejects a well-formed type {rtype} record ({what}): {e}"), String::new()));
+                    continue;
+                }
+            };
+            let (inp, got_sig) = match &back.data {
+                RData::DNSSEC(DNSSECRData::RRSIG(r)) => (r.input().clone(), r.sig().to_vec()),
+                RData::DNSSEC(DNSSECRData::SIG(r)) => (r.input().clone(), r.sig().to_vec()),
+                other => {
+                    fails.push((format!("a type {rtype} record decodes as {}", other.record_type()), String::new()));
+                    continue;
+                }
+            };
+            let got = (u16::from(inp.type_covered), u8::from(inp.algorithm), inp.num_labels, inp.original_ttl, inp.sig_expiration.get(), inp.sig_inception.get(), inp.key_tag);
+            let want = (c.tc, c.alg, c.labels, c.ottl, c.exp, c.inc, c.tag);
+            let signer_same = c.signer.to_name().map(|n| n.eq_case(&inp.signer_name)).unwrap_or(false);
+            if got != want || !signer_same || got_sig != sig || back.ttl != c.ottl {
+                fails.push((
+                    format!("the decoder altered an RRSIG field (type {rtype}, {what}): (type covered, algorithm, labels, original TTL, expiration, inception, key tag) on the wire {want:?}, decoded {got:?}; signer verbatim: {signer_same}; signature verbatim: {}; record TTL {} → {}", got_sig == sig, c.ottl, back.ttl),
+                    String::new(),
+                ));
+            }
+            // the signed data computed from the decoded value
+            let tbs = TBS::from_input(&name, class, &inp, records.iter()).map(|t| t.as_ref().to_vec()).ok();
+            let reference = c.ref_signed_data();
+            let too_big = reference.as_ref().map(|b| b.len() > 65535).unwrap_or(false);
+            if tbs != reference && !(too_big && tbs.is_none()) {
+                fails.push((
+                    format!(
+                        "the signed data computed from the DECODED type {rtype} record differs from the RFC 4034 §3.1.8.1 data built from the wire octets ({what}; {} vs {})",
+                        tbs.as_ref().map(|b| format!("{} octets", b.len())).unwrap_or("error".into()),
+                        reference.as_ref().map(|b| format!("{} octets", b.len())).unwrap_or("must not be used".into())
+                    ),
+                    String::new(),
+                ));
+            }
+            if rtype == 46 {
+                // hickory's own encoding of the decoded RRSIG record is the same octets
+                let mut out = Vec::new();
+                let ok = {
+                    let mut enc = BinEncoder::new(&mut out);
+                    back.emit(&mut enc).is_ok()
+                };
+                if !ok || out != octets {
+                    fails.push((format!("re-encoding the decoded RRSIG record does not give back its wire octets ({what})"), String::new()));
+                }
+                if what == "signed" {
+                    if let RData::DNSSEC(DNSSECRData::RRSIG(r)) = &back.data {
+                        let v = key.dnskey.verify_rrsig(&name, class, r, records.iter()).is_ok();
+                        let should = real_sig.is_some() && !too_big;
+                        stats.push(format!("wr.{}", if v { "verifies" } else if should { "REJECTED" } else { "not-usable" }));
+                        if v != should {
+                            fails.push((
+                                if should { format!("a conforming signature ({:?}) is rejected when the RRSIG went through the wire", key.alg) } else { "an RRSIG that must not be used verifies after the wire".to_string() },
+                                String::new(),
+                            ));
+                        }
+                    }
+                }
+            }
+        }
+    }
+    Some(Out { line, out: "~".into(), fails, stats, nontrivial: real_sig.is_some() })
+}
+
+/// a name of exactly `total` wire octets (63-octet labels, then the rest), letters in mixed case
+pub fn name_of_wire_len(total: usize, seed: u8) -> N {
+    let mut labels: Vec<Vec<u8>> = vec![];
+    let mut left = total - 1; // the root octet
+    let mut k = seed;
+    while left > 0 {
+        let l = (left - 1).min(63);
+        if l == 0 {
+            // one octet left cannot hold a label: lengthen the previous label instead (only when it is short enough)
+            break;
+        }
+        labels.push((0..l).map(|i| { k = k.wrapping_mul(31).wrapping_add(7); let c = b'a' + (k.wrapping_add(i as u8) % 26); if k & 4 == 0 { c.to_ascii_uppercase() } else { c } }).collect());
+        left -= l + 1;
+    }
+    let n = N { labels, fqdn: true };
+    debug_assert_eq!(wire(&n.labels).len(), total - left);
+    n
+}
+
+/// RRSIG field extremes and names at the 255-octet limit (directed, every run)
+fn limit_cases() -> Vec<Case> {
+    let mut v = vec![];
+    let owner = nm("Www.Example.COM.");
+    let base = |name: &N, tc: u16, rds: Vec<RD>| Case {
+        name: name.clone(),
+        cls: 1,
+        tc,
+        alg: 13,
+        labels: name.labels.len() as u8 - if name.labels.first().map(|l| l == b"*").unwrap_or(false) { 1 } else { 0 },
+        ottl: 3600,
+        exp: 1_700_003_600,
+        inc: 1_700_000_000,
+        tag: 12345,
+        signer: nm("Example.COM."),
+        recs: rds.into_iter().map(|rd| Rec { name: name.clone(), rtype: tc, cls: 1, ttl: 300, rd }).collect(),
+    };
+    let a2 = || vec![RD::A(vec![192, 0, 2, 1]), RD::A(vec![192, 0, 2, 2])];
+    let ext32 = [0u32, 1, 0x7FFF_FFFF, 0x8000_0000, 0x8000_0001, 0xFFFF_FFFF];
+    // one field at an extreme
+    for x in ext32 {
+        let mut c = base(&owner, T_A, a2());
+        c.ottl = x;
+        v.push(c);
+        let mut c = base(&owner, T_A, a2());
+        c.exp = x;
+        v.push(c);
+        let mut c = base(&owner, T_A, a2());
+        c.inc = x;
+        v.push(c);
+        // all three, and the records' own TTLs as well
+        let mut c = base(&owner, T_A, a2());
+        c.ottl = x;
+        c.exp = x;
+        c.inc = x ^ 0x8000_0000;
+        for r in c.recs.iter_mut() {
+            r.ttl = x;
+        }
+        v.push(c);
+    }
+    for l in [0u8, 1, 2, 3, 4, 127, 128, 255] {
+        let mut c = base(&owner, T_A, a2());
+        c.labels = l;
+        v.push(c);
+    }
+    for tag in [0u16, 1, 0x7FFF, 0x8000, 0xFFFF] {
+        let mut c = base(&owner, T_A, a2());
+        c.tag = tag;
+        v.push(c);
+    }
+    for alg in [0u8, 1, 5, 8, 13, 15, 16, 253, 255] {
+        let mut c = base(&owner, T_A, a2());
+        c.alg = alg;
+        v.push(c);
+    }
+    // type covered: unknown / reserved / meta types, with records of exactly that type
+    for tc in [0u16, 3, 41, 46, 99, 250, 255, 256, 32768, 65280, 65534, 65535] {
+        v.push(base(&owner, tc, vec![RD::Op(vec![1, 2, 3]), RD::Op(vec![])]));
+    }
+    // signer: root, mixed case, 253 / 254 / 255 wire octets
+    for signer in [N { labels: vec![], fqdn: true }, nm("COM."), nm("eXaMpLe.CoM."), name_of_wire_len(253, 1), name_of_wire_len(254, 2), name_of_wire_len(255, 3)] {
+        let mut c = base(&owner, T_A, a2());
+        c.signer = signer;
+        v.push(c);
+    }
+    // names at the limit: owners (plain, wildcard, reduced Labels) and embedded RDATA names of 253, 254, 255 wire octets
+    for total in [253usize, 254, 255] {
+        let long = name_of_wire_len(total, total as u8);
+        let mut c = base(&long, T_A, a2());
+        c.signer = N { labels: long.labels[long.labels.len() - 1..].to_vec(), fqdn: true };
+        v.push(c.clone());
+        // the same owner, RRSIG of the wildcard one / two labels up
+        for up in [1u8, 2] {
+            let mut w = c.clone();
+            w.labels = c.labels.saturating_sub(up);
+            v.push(w);
+        }
+        // a wildcard owner of that length
+        let mut wl = name_of_wire_len(total - 2, (total as u8).wrapping_add(9));
+        wl.labels.insert(0, b"*".to_vec());
+        v.push(base(&wl, T_A, a2()));
+        let mut w = base(&wl, T_TXT, vec![RD::Txt(vec![b"x".to_vec()])]);
+        w.labels = w.labels.saturating_sub(1);
+        v.push(w);
+        // owner and signer both at the limit (the signer is the owner)
+        let mut c2 = base(&long, T_NS, vec![RD::Ns(long.clone()), RD::Ns(name_of_wire_len(total, 77))]);
+        c2.signer = long.clone();
+        v.push(c2);
+        let other = name_of_wire_len(total, 41);
+        v.push(base(&owner, T_NS, vec![RD::Ns(long.clone()), RD::Ns(other.clone())]));
+        v.push(base(&owner, T_CNAME, vec![RD::Cname(long.clone())]));
+        v.push(base(&owner, T_PTR, vec![RD::Ptr(long.clone()), RD::Ptr(nm("short.example."))]));
+        v.push(base(&owner, T_MX, vec![RD::Mx(10, long.clone()), RD::Mx(10, other.clone()), RD::Mx(5, nm("mx.example."))]));
+        v.push(base(&owner, T_SOA, vec![RD::Soa(long.clone(), other.clone(), 1, 2, 3, 4, 5)]));
+        v.push(base(&owner, T_SOA, vec![RD::Soa(nm("ns.example."), long.clone(), 1, 2, 3, 4, 5)]));
+        v.push(base(&owner, T_SRV, vec![RD::Srv(1, 2, 443, long.clone()), RD::Srv(1, 2, 443, other.clone())]));
+        v.push(base(&long, T_SRV, vec![RD::Srv(0, 0, 53, long.clone())]));
+    }
+    v
+}
+
 /// `bk ALG PUBKEYHEX` — malformed public keys of the supported algorithms (implementation only): decoding and
 /// verification return an error, never accept, never panic
 fn exec_bad_key(t: &[&str]) -> Option<Out> {
@@ -927,6 +1163,9 @@ fn exec_inner(t: &[&str]) -> Option<Out> {
     }
     if t[0] == "kl" {
         return exec_key_loading();
+    }
+    if t[0] == "wr" {
+        return exec_wire(t);
     }
     if t[0] == "bs" {
         return exec_builtin_signer(t);
@@ -1700,6 +1939,8 @@ fn emit_case(c: &Case, rec: &mut Recorder, with_rdata: bool) {
     if let Some(a) = cs.args() {
         exec(&format!("bs {ki} {dur} {a}"), rec);
     }
+    // the RRSIG through the wire
+    exec(&format!("wr {ki} {args}"), rec);
     if with_rdata {
         for r in c.rrset().iter().take(3) {
             if let Some(t) = r.rd.tok(r.rtype) {
@@ -1742,6 +1983,9 @@ pub fn run(o: &Opts, rec: &mut Recorder) {
         }
     }
     for c in hand_built() {
+        emit_case(&c, rec, true);
+    }
+    for c in limit_cases() {
         emit_case(&c, rec, true);
     }
     let mut r = Rng::new(o.seed);
